@@ -37,7 +37,7 @@ SPEC("pane.classes", "PaneBase.__init_subclass__",
      accepts=["name", "out_format", "in_format", "eq", "order", "frozen", "unsafe_hash", "kw_only", "rename", "in_rename", "out_rename",
               "allow_extra", "custom"],     # the argument list of docs/using/dataclasses.md (C16: class options accepted at class creation)
      props=["C16", "C17"],
-     shapes={"opts": "rec:PaneOptions", "args": "seq", "kwargs": "map", "getattr(cls, PANE_INFO).opts": "rec:PaneOptions"},
+     shapes={"opts": "rec:PaneOptions", "args": "seq", "kwargs": "map", ".__parameters__": "seq", "getattr(cls, PANE_INFO).opts": "rec:PaneOptions"},
      mutable=["cls"],
      ensures=[
          # every option not passed keeps the inherited value; a passed one overrides (C17)
